@@ -39,6 +39,10 @@ class MindsDBParser(Parser):
     tokens = MindsDBLexer.tokens
 
     precedence = (
+        # `tab OFFSET 1`: OFFSET is also an identifier word; after a table without alias it starts the
+        # OFFSET clause (reduce the un-aliased table) instead of being shifted as the alias
+        ('nonassoc', OFFSET),
+        ('nonassoc', TABLE_WITHOUT_ALIAS),
         ('left', OR),
         ('left', AND),
         ('right', UNOT),
@@ -1247,7 +1251,7 @@ class MindsDBParser(Parser):
        'from_table identifier',
        'from_table AS dquote_string',
        'from_table dquote_string',
-       'from_table')
+       'from_table %prec TABLE_WITHOUT_ALIAS')
     def from_table_aliased(self, p):
         entity = p.from_table
         if hasattr(p, 'identifier'):
